@@ -406,3 +406,12 @@ package j5schema
 //@ func (*ObjectSchema).Clone
 //@   requires s != nil
 //@   ensures result != nil && fresh(result) && len(result.Properties) == len(s.Properties)
+
+// ---- the entity annotation is read back as written (C17) -------------------------------------------------------
+// A message carrying (j5.ext.v1.psm) with an explicit part is reported as that part of that entity.
+//@ spec func psmOf(m protoreflect.MessageDescriptor) *ext_j5pb.PSMOptions = extof(ext_j5pb.E_Psm, descOpts(m))
+//@ func findPSMOptions
+//@   ensures annotated: psmOf(srcMsg) != nil && psmOf(srcMsg).EntityPart != nil ==> result1 == nil && result0 != nil && result0.Entity == psmOf(srcMsg).EntityName && result0.Part == *psmOf(srcMsg).EntityPart
+//@   ensures suffix: psmOf(srcMsg) != nil && psmOf(srcMsg).EntityPart == nil && result1 == nil ==> result0 != nil && result0.Entity == psmOf(srcMsg).EntityName
+//@   |   && (hasSuffix(descName(srcMsg), "Keys") ? result0.Part == schema_j5pb.EntityPart_KEYS : hasSuffix(descName(srcMsg), "State") ? result0.Part == schema_j5pb.EntityPart_STATE :
+//@   |   hasSuffix(descName(srcMsg), "Event") ? result0.Part == schema_j5pb.EntityPart_EVENT : result0.Part == schema_j5pb.EntityPart_DATA)
